@@ -46,6 +46,20 @@ func (f *Frame) callSiteAsserts(instr *ssa.Call, cc *ssa.CallCommon, calleeName 
 		for j := 0; j < sig.Params().Len() && j+off < len(args); j++ {
 			env.vars[fmt.Sprintf("arg%d", j)] = env.sv(args[j+off], sig.Params().At(j).Type())
 		}
+		// outsideLoops: the call site is executed at most once per activation
+		inLoop := false
+		if blk != nil {
+			for _, l := range f.loops.heads {
+				if l.blocks[blk] {
+					inLoop = true
+				}
+			}
+		}
+		if inLoop {
+			env.vars["outsideLoops"] = sval{t: "false", sort: "Bool"}
+		} else {
+			env.vars["outsideLoops"] = sval{t: "true", sort: "Bool"}
+		}
 		g, err := env.evalGoal(a.E)
 		if err != nil {
 			f.bail("assert at %s %q: %v", a.Anchor, a.Text, err)
